@@ -81,6 +81,11 @@ func c16Sessions(e *emitter, r *rng, tier string, bodies []string) {
 			}
 			os.WriteFile(file, []byte(src), 0o644)
 			mt := t0.Add(time.Duration(si*10+k) * time.Second)
+			if si%4 == 3 && k > 0 && k == len(seq)-1 {
+				// the last version arrives with an OLDER modification time than anything seen (a backup put back with
+				// mv / cp -p / rsync -t, a file checked out from an archive)
+				mt = t0.Add(time.Duration(si*10)*time.Second - 30*time.Minute)
+			}
 			os.Chtimes(file, mt, mt)
 			res, err := h.HandleEvent(context.Background(), fsEvent(file))
 			if err != nil {
@@ -150,6 +155,61 @@ func runDevServe(e *emitter, tier string, seed uint64) {
 		time.Sleep(120 * time.Millisecond)
 		got = read()
 		fmt.Fprintf(e.w, "%d\tlater\t%s\t%s\n", k, hx(b), hx(got))
+	}
+	// a program that renders all the time (a ticker component, polling tabs): a rewrite is still noticed
+	for k := 0; k < 2; k++ {
+		v := fmt.Sprintf("BUSY%d", k)
+		stop := make(chan struct{})
+		done := make(chan struct{})
+		go func() {
+			defer close(done)
+			for {
+				select {
+				case <-stop:
+					return
+				default:
+					read()
+					time.Sleep(20 * time.Millisecond)
+				}
+			}
+		}()
+		time.Sleep(150 * time.Millisecond)
+		os.WriteFile(txt, []byte(v), 0o644)
+		time.Sleep(700 * time.Millisecond)
+		got := read()
+		close(stop)
+		<-done
+		fmt.Fprintf(e.w, "%d\tunder-constant-rendering\t%s\t%s\n", rounds+k, hx(v), hx(got))
+	}
+}
+
+// c16TextFileNames: the generator (which gets the path from the file watcher) and the running program (which resolves
+// the path of its own source file) must arrive at the same text file, also when the project is reached through a
+// symbolic link.
+func c16TextFileNames(e *emitter) {
+	if !e.mine("txtname") {
+		return
+	}
+	base := workDir
+	if base == "" {
+		base = os.TempDir()
+	}
+	real, err := os.MkdirTemp(base, "txtreal")
+	if err != nil {
+		return
+	}
+	defer os.RemoveAll(real)
+	link := real + "-link"
+	if os.Symlink(real, link) != nil {
+		return
+	}
+	defer os.Remove(link)
+	os.WriteFile(filepath.Join(real, "page.templ"), []byte("package p\n"), 0o644)
+	os.WriteFile(filepath.Join(real, "page_templ.go"), []byte("package p\n"), 0o644)
+	for _, name := range []string{"page.templ", "page_templ.go"} {
+		viaReal := templruntime.GetDevModeTextFileName(filepath.Join(real, name))
+		viaLink := templruntime.GetDevModeTextFileName(filepath.Join(link, name))
+		e.emit("txtname "+name, "txtname", name, hx(filepath.Base(viaReal)), hx(filepath.Base(viaLink)))
 	}
 }
 
